@@ -226,7 +226,28 @@ func runPool(raw Sx) (Sx, Sx) {
 			rp.Write([]byte(strings.Repeat(id+",", 40)))
 			rp.Write([]byte(">"))
 		}))
+		// a handler that takes the connection over (websocket style): the compressor installed for it is still
+		// released exactly once, by the deferred Close
+		ws.Route(ws.GET("/hj").To(func(rq *restful.Request, rp *restful.Response) {
+			if hj, ok := rp.ResponseWriter.(http.Hijacker); ok {
+				if conn, _, err := hj.Hijack(); err == nil {
+					conn.Close()
+				}
+			}
+		}))
 		c.Add(ws)
+		func() {
+			defer func() { recover() }()
+			srv := httptest.NewServer(c)
+			defer srv.Close()
+			for k := 0; k < 2; k++ {
+				hr, _ := http.NewRequest("GET", srv.URL+"/hj", nil)
+				hr.Header.Set("Accept-Encoding", []string{"gzip", "deflate"}[k])
+				if resp, err := http.DefaultClient.Do(hr); err == nil {
+					resp.Body.Close()
+				}
+			}
+		}()
 		var wg sync.WaitGroup
 		start := make(chan struct{})
 		for cl := 0; cl < clients; cl++ {
